@@ -1,17 +1,25 @@
 """C01: API-level bignum units.  Value contracts in wide bit-vectors; callees replaced by their contracts (modular)."""
-import os
-CONF = os.environ.get('VERIF_BN_CONF', 'w8')
-N = {'w8': 13, 'p128': 9, 'base': 37, 'p256': 13}[CONF]   # unwinding bound >= RLC_BN_SIZE + 3 (vc_val runs RLC_BN_SIZE+2 times)
+NB = {'w8': 13, 'p128': 9, 'base': 37}   # unwinding bound >= RLC_BN_SIZE + 3 (vc_val runs RLC_BN_SIZE+2 times)
 
 S3 = [('none', 'VC_S3_NONE'), ('ca', 'VC_S3_CA'), ('cb', 'VC_S3_CB'), ('ab', 'VC_S3_AB'), ('cab', 'VC_S3_CAB')]
 S2 = [('none', 'VC_S2_NONE'), ('ca', 'VC_S2_CA')]
 S1 = [('x', None)]
 HDR = ['bn_low.h', 'bn_api.h']
-BOUND = ('loops unwound to RLC_BN_SIZE+3 with unwinding assertions in configuration %s: exhaustive for every operand length '
-         'an AUTO-allocated bn_t of that configuration can hold' % CONF)
 
 
 def register(add):
+    for conf in ('w8',):
+        register_conf(add, conf)
+
+
+def register_conf(add0, CONF):
+    N = NB[CONF]
+    BOUND = ('residual loops (bn_trim scan, value-spec loops) unwound RLC_BN_SIZE+3 times with unwinding assertions in configuration %s: '
+             'complete for every operand length an AUTO-allocated bn_t of that configuration can hold' % CONF)
+
+    def add(name, *a, **k):
+        return add0(name + '@' + CONF, *a, **k)
+
     def api(f, src, decls, call, shapes, replace, props=('C01', 'C08'), defs=(), **kw):
         for sh, mac in shapes:
             d = list(defs) + (['VC_SHAPE_%s=%s' % (f, mac)] if mac else [])
